@@ -63,7 +63,11 @@ def shapes_text(T):
         ('text-repeated', 'ul>li{%s}*2' % T, ['<ul><li>', t, '</li><li>', t, '</li></ul>']),
         ('text-sibling', 'p{%s}+q{%s}' % (T, T), ['<p>', t, '</p><q>', t, '</q>']),
         ('text-in-group', '(p{%s}>b)+i' % T, ['<p>', t, '<b></b></p><i></i>']),
-    ]
+    ] + ([
+        # text on an element carrying the `/` mark or on a void snippet element is still its content
+        ('text-selfclosed', 'p{%s}/' % T, ['<p>', t, '</p>']),
+        ('text-void', 'div>hr{%s}+b' % T, ['<div><hr>', t, '</hr><b></b></div>']),
+    ] if V else [])
 
 
 def shape_quoted(T, q):
@@ -201,6 +205,8 @@ def gen_wrap(ctx, n):
                         plain({'text': lines})))
         out.append(case('wrap:implicit+$#', 'ul>li[title=$#]{[$#]}*',
                         ['<ul>'] + sum([['<li title="%s">' % l, ['T', '[%s]' % l], '</li>'] for l in nb], []) + ['</ul>'],
+                        plain({'text': lines})))
+        out.append(case('wrap:implicit-void', 'div>hr*', ['<div>'] + sum([['<hr>', ['T', l], '</hr>'] for l in nb], []) + ['</div>'],
                         plain({'text': lines})))
         whole = '\n'.join(lines).strip()
         out.append(case('wrap:plain', 'ul>li', ['<ul><li>', ['T', whole] if whole else '', '</li></ul>'], plain({'text': lines})))
